@@ -11,7 +11,7 @@
 //!   VALUES <chrom> <s> <e>
 //!   ZOOM <chrom> <s> <e> <reduction>
 //!   AUTOSQL | ITEMCOUNT         -- bigBed only
-//! Every op is run on three reader flavours where applicable: plain typed reader, `.cached()`,
+//! Every op is run on four reader flavours where applicable: plain typed reader, `.cached()`, one `.cached()` reader kept for all ops of the file,
 //! and through `GenericBBIRead`. Output: {"op":line_no,"flavour":..,"ok":true,...} or
 //! {"op":..,"flavour":..,"ok":false,"err":"..."} / "panic":"..."
 use crate::util::J;
@@ -112,6 +112,10 @@ pub fn run(arg: &str) -> i32 {
     };
     let mut bytes: Vec<u8> = vec![];
     let mut is_bw = true;
+    // one caching reader per file that lives across all of the file's ops: its answers depend on the history of
+    // earlier queries (cached blocks and index nodes, where the last read left the file)
+    let mut pers_bw = None;
+    let mut pers_bb = None;
     for (ln, line) in text.lines().enumerate() {
         let f: Vec<&str> = line.split('\t').collect();
         if f.is_empty() || f[0].is_empty() || f[0].starts_with('#') {
@@ -123,11 +127,26 @@ pub fn run(arg: &str) -> i32 {
                 let m = u32::from_le_bytes([bytes[0], bytes[1], bytes[2], bytes[3]]);
                 m == 0x888F_FC26 || m.swap_bytes() == 0x888F_FC26
             };
+            pers_bw = None;
+            pers_bb = None;
             continue;
         }
-        for flavour in ["plain", "cached", "generic"] {
+        for flavour in ["plain", "cached", "generic", "cached_persistent"] {
             let b = bytes.clone();
             let r = wr::guard(|| -> Result<J, String> {
+                if flavour == "cached_persistent" {
+                    return if is_bw {
+                        if pers_bw.is_none() {
+                            pers_bw = Some(BigWigRead::open(Cursor::new(b)).map_err(|e| format!("open: {}", e))?.cached());
+                        }
+                        bw_op(pers_bw.as_mut().unwrap(), &f)
+                    } else {
+                        if pers_bb.is_none() {
+                            pers_bb = Some(BigBedRead::open(Cursor::new(b)).map_err(|e| format!("open: {}", e))?.cached());
+                        }
+                        bb_op(pers_bb.as_mut().unwrap(), &f)
+                    };
+                }
                 if is_bw {
                     match flavour {
                         "plain" => bw_op(&mut BigWigRead::open(Cursor::new(b)).map_err(|e| format!("open: {}", e))?, &f),
@@ -148,6 +167,11 @@ pub fn run(arg: &str) -> i32 {
                     }
                 }
             });
+            if r.is_err() && flavour == "cached_persistent" {
+                // a panic may have left the reader half-updated: start a new one for the next op
+                pers_bw = None;
+                pers_bb = None;
+            }
             let j = match r {
                 Ok(Ok(v)) => J::obj().set("op", ln.into()).set("flavour", flavour.into()).set("ok", true.into()).set("result", v),
                 Ok(Err(e)) => J::obj().set("op", ln.into()).set("flavour", flavour.into()).set("ok", false.into()).set("err", J::s(e)),
